@@ -549,3 +549,16 @@ package cache
 //@ loop 1 invariant forall k: string :: visited(k) ==> (exists i: int :: 0 <= i && i < len(result) && result[i] == k)
 //@ loop 1 invariant forall i: int :: 0 <= i && i < len(result) ==> (result[i] in t.cache)
 
+// RowsByCondition (C08): matchesAll(r, conditions, u) - row u of the cache
+// satisfies every condition of the list under RFC 7047 5.1. The function is
+// closures + reflection (index pre-selection over the power set of indexable
+// conditions, ovsdb.ConditionFunction.Evaluate); its contract is trusted here
+// and backed by the labelled bounded stand-ins of C08 (every index
+// configuration against a reference scan).
+//@ ghost func matchesAll(*RowCache, []ovsdb.Condition, string) bool
+//@ func (*RowCache).RowsByCondition
+//@ trusted "closures and reflection; covered by bounded stand-ins rows-by-condition and condition-rfc"
+//@ modifies nothing
+//@ ensures_ok result0 != nil && fresh(result0)
+//@ ensures_ok forall u: string :: (u in result0) == matchesAll(r, conditions, u)
+
